@@ -192,6 +192,45 @@ func C11(r *explore.Run) {
 	})
 }
 
+// composeEdits: every single-edit neighbour of a sentence of G that a single-statement entry point
+// accepts stand-alone must also be accepted as a member of a list (this reaches every
+// end-of-input-sensitive rule, e.g. a trailing comma inserted at the very end).
+func composeEdits(r *explore.Run) {
+	def := map[string]string{"ParseStatement": "SELECT 1", "ParseDDL": "DROP TABLE t", "ParseDML": "DELETE FROM t WHERE TRUE"}
+	lst := map[string]string{"ParseStatement": "ParseStatements", "ParseDDL": "ParseDDLs", "ParseDML": "ParseDMLs"}
+	editSpace(r, 1, func(c *explore.Ctx, e *Entry, x string) {
+		le, ok := lst[e.Name]
+		if !ok {
+			return
+		}
+		res := e.Call(x)
+		if res.Panic != nil || res.Err != nil {
+			return
+		}
+		rl := lexref.Lex(x)
+		if !rl.OK {
+			return
+		}
+		for _, t := range rl.Toks {
+			if t.Kind == ";" {
+				return
+			}
+		}
+		if len(rl.Comments) > 0 && rl.Comments[len(rl.Comments)-1].End == len(x) && !strings.HasSuffix(x, "*/") {
+			return // ends inside a line comment: the separator would be swallowed
+		}
+		c.Count("accepted_edits", 1)
+		for _, y := range []string{x + " ; " + def[e.Name], def[e.Name] + " ; " + x, x + " ;"} {
+			v, _ := checkListCompose(le, e.Name, y)
+			for sig, d := range v {
+				c.Violation(sig, y, d)
+			}
+		}
+		c.Nontrivial(explore.Hash(e.Name + x))
+		c.OutcomeStr(e.Name + x)
+	})
+}
+
 func init() {
-	Registry["C11"] = C11
+	Registry["C11"] = func(r *explore.Run) { C11(r); composeEdits(r) }
 }
